@@ -124,8 +124,11 @@ def _check_reg_targets_legacy(y_true, y_pred, multioutput, dtype="numeric"):
     return y_type, yt, yp, mo
 _orig_mse = _r.mean_squared_error
 def _mse_legacy(y_true, y_pred, *, sample_weight=None, multioutput="uniform_average", squared=True):
-    v = _orig_mse(y_true, y_pred, sample_weight=sample_weight, multioutput=multioutput)
-    return v if squared else np.sqrt(v)
+    if squared:
+        return _orig_mse(y_true, y_pred, sample_weight=sample_weight, multioutput=multioutput)
+    # sklearn 0.24 (pinned by /repo/setup.py): sqrt per output column, THEN average (fix #17309)
+    from sklearn.metrics import root_mean_squared_error
+    return root_mean_squared_error(y_true, y_pred, sample_weight=sample_weight, multioutput=multioutput)
 def patch_metrics():
     import sktime.performance_metrics.forecasting._functions as F
     F._check_reg_targets = _check_reg_targets_legacy
